@@ -80,11 +80,11 @@ def run_exercise(acc, ex, inst, rp, produce, checker, cargs):
 
 
 # ---------------------------------------------------------------- DFA exercises
-def check_dfa_ref(acc, spec, which, scheme='s', length=5):
+def check_dfa_ref(acc, spec, which, scheme='s', length=5, letters='ab'):
     import gambatools.notebook as nb
     import gambatools.notebook_dfa as nd
-    rp = {'fn': 'mc.props.c13:one', 'mode': 'plain', 'params': {'kind': 'dfa', 'spec': spec, 'which': which, 'opt': [scheme, length]}}
-    desc = c17.desc_dfa(spec, scheme)
+    rp = {'fn': 'mc.props.c13:one', 'mode': 'plain', 'params': {'kind': 'dfa', 'spec': spec, 'which': which, 'opt': [scheme, length, letters]}}
+    desc = c17.desc_dfa(spec, scheme, letters)
     text = text_of(desc)
     f = write('ref.dfa', text)
     inst = {'dfa': text}
@@ -390,6 +390,15 @@ def plan(tier, seed):
     add('dfa', [3, 2], 16, which=noreg, stride=2 if q else 1)
     add('dfa', [3, 2], 16, which=['dfa-to-regexp'], stride=8 if q else 1)
     add('dfa', [2, 2], 2, opt=['q', 5])
+    # wave 5: names around a decimal carry / substrings / non-decimal digits / generated-looking / keyword-like; an alphabet
+    # whose words spell tokens (eps); five letters
+    for sch in ('f', 't', 'u', 'g', 'K'):
+        add('dfa', [2, 2], 2, opt=[sch, 4], stride=1 if not q else 2)
+        add('dfa', [2, 1], 1, opt=[sch, 5])
+    add('dfa', [1, 3], 1, opt=['s', 4, 'eps'])
+    add('dfa', [2, 3], 4, opt=['s', 3, 'eps'], stride=1 if not q else 4)
+    add('dfa', [1, 5], 1, opt=['s', 2, 'w'], which=noreg)
+    add('dfa', [2, 5], 4, opt=['s', 2, 'w'], which=noreg, stride=8 if not q else 32)
     add('pair', [1, 1, 1], 1)
     add('pair', [2, 2, 1], 2)
     add('pair', [2, 1, 2], 1)
@@ -407,4 +416,4 @@ def plan(tier, seed):
         ' stride 1/2 (regexp exercise 1/8)' if q else '', ' (k=2 stride 1/4)' if q else '', ',<=4' if q else '', 16 if q else 2, 4 if q else 5)},
             'exhaustive': True,
             'rule': 'for every reference object: the answer is computed by notebooks/make_notebook.apply_command from a temp file exactly as the notebook generator does, and handed to the checker call of the template; the verdict line must be OK; non-trivial = reference with >= 2 states / transitions / a generated word',
-            'assumptions': ['instance preconditions decided by oracle code: alphabet without 0/1 for the regexp exercise, grammar expressible in the simple format and non-degenerate (every variable derives a non-empty word), CYK/derivation words non-empty']}
+            'assumptions': ['instance preconditions decided by oracle code: alphabet without 0/1 for the regexp exercise, grammar expressible in the simple format and non-degenerate (every variable derives a non-empty word), CYK/derivation words non-empty', 'wave 5: DFA references with names q9/q10, substrings, non-decimal digits, start/start2, keywords in another case; alphabets {e,p,s} (words spell eps) and five letters']}
